@@ -335,3 +335,66 @@ Lemma column_text_usual_symbol cp st a sym :
 Proof.
   intros Hc Hq. unfold amount_text_col, amount_text, column_symbol_text. rewrite Hc, Hq. reflexivity.
 Qed.
+
+(* ---- the printed symbol is read back whole: quoted exactly when the reader would stop inside it ---- *)
+From LedgerV Require Import Gen.InvalidChars.
+
+Lemma take_while_all (f : Z -> bool) s rest :
+  forallb f s = true -> (match rest with [] => True | c :: _ => f c = false end) ->
+  take_while f (s ++ rest) = (s, rest).
+Proof.
+  induction s as [|c s IH]; cbn [forallb app take_while]; intros Hs Hr.
+  - destruct rest as [|c r]; [reflexivity|]. cbn [take_while]. rewrite Hr. reflexivity.
+  - apply andb_true_iff in Hs as [Hc Hs]. rewrite Hc, (IH Hs Hr). reflexivity.
+Qed.
+
+Lemma needs_quotes_false_all_valid sym :
+  needs_quotes sym = false -> forallb (fun c => negb (is_invalid c)) sym = true.
+Proof.
+  unfold needs_quotes. induction sym as [|c s IH]; cbn [existsb forallb]; [reflexivity|].
+  intros H. apply orb_false_iff in H as [Hc Hs]. unfold is_invalid at 1. rewrite Hc. cbn. exact (IH Hs).
+Qed.
+
+Lemma skip_ws_nonspace c s : is_space c = false -> skip_ws (c :: s) = c :: s.
+Proof. intros H. unfold skip_ws. cbn [take_while]. rewrite H. reflexivity. Qed.
+
+(* the reader's first test, written with a boolean test instead of a pattern on the literal 34 *)
+Definition read_symbol_bare (s : str) : res (str * str) :=
+  let (sym, rest) := take_while (fun c => negb (is_invalid c)) s in
+  if existsb (str_eqb sym) src_reserved_words then Ok ([], s) else Ok (sym, rest).
+
+Lemma read_symbol_not_quote c t :
+  is_space c = false -> (c =? 34) = false -> read_symbol (c :: t) = read_symbol_bare (c :: t).
+Proof.
+  intros Hsp Hq. unfold read_symbol. rewrite (skip_ws_nonspace c t Hsp).
+  destruct c as [|p|p]; try reflexivity.
+  do 6 (destruct p as [p|p|]; try reflexivity). discriminate Hq.
+Qed.
+
+Lemma symbol_text_reads_back sym rest c0 s0 :
+  sym = c0 :: s0 -> is_space c0 = false ->
+  existsb (fun c => c =? 34) sym = false ->
+  existsb (str_eqb sym) src_reserved_words = false ->
+  (match rest with [] => True | c :: _ => is_invalid c = true end) ->
+  read_symbol (symbol_text sym ++ rest) = Ok (sym, rest).
+Proof.
+  intros Hsym Hsp Hq Hres Hrest. unfold symbol_text.
+  destruct (needs_quotes sym) eqn:Hn.
+  - (* quoted *)
+    unfold read_symbol. cbn [app]. rewrite (skip_ws_nonspace 34) by reflexivity.
+    rewrite <- app_assoc. cbn [app].
+    rewrite (take_while_all (fun c => negb (c =? 34)) sym (34 :: rest)).
+    + reflexivity.
+    + clear -Hq. induction sym as [|c s IH]; cbn [existsb forallb] in *; [reflexivity|].
+      apply orb_false_iff in Hq as [Hc Hs]. rewrite Hc. cbn. exact (IH Hs).
+    + reflexivity.
+  - (* bare *)
+    assert (Hne : (c0 =? 34) = false).
+    { subst sym. cbn [existsb] in Hq. apply orb_false_iff in Hq as [Hc _]. exact Hc. }
+    rewrite Hsym. cbn [app]. rewrite (read_symbol_not_quote c0 (s0 ++ rest) Hsp Hne).
+    unfold read_symbol_bare. change (c0 :: s0 ++ rest) with ((c0 :: s0) ++ rest). rewrite <- Hsym.
+    rewrite (take_while_all (fun c => negb (is_invalid c)) sym rest).
+    + rewrite Hres. reflexivity.
+    + apply needs_quotes_false_all_valid. exact Hn.
+    + destruct rest as [|c r]; [exact I | rewrite Hrest; reflexivity].
+Qed.
